@@ -148,3 +148,165 @@ def C11.holds (c : Ctx) (j : Journal) : Bool :=
 
 end Spec
 end Esc
+
+namespace Esc
+namespace Spec
+
+/-! ### C19 — provider level -/
+
+def termCall (g : PGroup) (n : Node) : Call := .terminateInAsg (instanceIdFor g n) true
+
+/-- What one `DeleteNodes(nodes…)` request on the cached group `g` may do: `j` is its journal,
+    `out` its result. -/
+def C19.deleteHolds (g : PGroup) (nodes : List Node) (j : Journal) (out : DelErr) : Bool :=
+  if g.asg.desired ≤ g.asg.min || g.asg.desired - nodes.length < g.asg.min then
+    j.isEmpty && out == .refused
+  else
+    let m := j.length
+    decide (m ≤ nodes.length) &&
+    (j.map (·.call) == (nodes.take m).map (termCall g)) &&
+    (nodes.take m).all (belongs g) &&
+    j.dropLast.all (·.ok) &&
+    (match out with
+     | .none => m == nodes.length && j.all (·.ok)
+     | .notInGroup => j.all (·.ok) && (match nodes[m]? with | some x => !belongs g x | none => false)
+     | .failed => (match j.getLast? with | some e => !e.ok | none => false)
+     | .refused => false)
+
+def isTerminateEntry (e : Entry) : Bool := match e.call with | .terminateInAsg .. => true | _ => false
+def isDeleteEntry (e : Entry) : Bool := match e.call with | .deleteNode _ => true | _ => false
+
+/-- One `TryDeleteNodes(cands)` batch: cloud terminations first; Kubernetes deletions only after the
+    cloud accepted the termination of the entire batch, in candidate order, stopping at the first
+    failed delete. -/
+def C19.batchHolds (g : PGroup) (cands : List Node) (j : Journal) : Bool :=
+  let terms := j.takeWhile isTerminateEntry
+  let dels := j.dropWhile isTerminateEntry
+  dels.all isDeleteEntry &&
+  (dels.isEmpty || (terms.length == cands.length && terms.all (·.ok) && !cands.isEmpty)) &&
+  (dels.map (·.call) == (cands.take dels.length).map (fun n => Call.deleteNode n.name)) &&
+  dels.dropLast.all (·.ok) &&
+  (terms.map (·.call) == (cands.take terms.length).map (termCall g)) &&
+  decide ((terms.length : Int) ≤ max 0 (g.asg.desired - g.asg.min))
+
+end Spec
+end Esc
+
+namespace Esc
+namespace Spec
+
+/-! ### C17 / C18 — provider level -/
+
+def attachIdsOf (e : Entry) : List String := match e.call with | .attach _ ids => ids | _ => []
+def termIdsOf (e : Entry) : List String := match e.call with | .terminateInstances ids => ids | _ => []
+
+/-- Instance ids the ASG accepted. -/
+def attachedIds (j : Journal) : List String := (j.filter (·.ok)).flatMap attachIdsOf
+/-- Instance ids submitted for termination (whether or not the call was accepted). -/
+def terminatedIds (j : Journal) : List String := j.flatMap termIdsOf
+
+/-- **C18**: after a fleet request returned `acquired`, every acquired instance is attached or
+    submitted for termination, never both, never neither; termination calls carry at most
+    `terminateBatchSize` ids; success means everything was attached and nothing terminated. -/
+def C18.holds (acquired : List String) (j : Journal) (out : IncErr) : Bool :=
+  (attachedIds j ++ terminatedIds j).isPerm acquired &&
+  j.all (fun e => decide ((termIdsOf e).length ≤ Gen.terminateBatchSize)) &&
+  (out != .none || (terminatedIds j).isEmpty)
+
+/-- **C17 (attach partition)**: the AttachInstances calls carry consecutive batches of the acquired
+    ids, in order, each id at most once, at most `batchSize` per call, only the last one shorter. -/
+def isAttachEntry (e : Entry) : Bool := match e.call with | .attach .. => true | _ => false
+
+def C17.attachHolds (gid : String) (acquired : List String) (j : Journal) : Bool :=
+  let calls := j.filter isAttachEntry
+  let idss := calls.map attachIdsOf
+  calls.all (fun e => match e.call with | .attach g _ => g == gid | _ => false) &&
+  idss.all (fun b => decide (b.length ≤ Gen.batchSize)) &&
+  idss.dropLast.all (fun b => b.length == Gen.batchSize) &&
+  (idss.flatten == acquired.take idss.flatten.length) &&
+  calls.dropLast.all (·.ok)
+
+/-- Overrides carry an instance type iff types are configured, and then one of the configured ones. -/
+def C17.overridesOk (types : List String) (ovs : List Override) : Bool :=
+  ovs.all (fun ov => if types.isEmpty then ov.instanceType.isNone
+                      else match ov.instanceType with | some t => types.contains t | none => false)
+
+/-- The fleet request `createFleetInput` must build for a scale-up by `d`. -/
+def C17.fleetReqOk (cfg : AwsCfg) (d : Int) (r : FleetReq) : Bool :=
+  r.total == d && r.minTarget == d && r.fleetType == "instant" &&
+  r.templateID == cfg.launchTemplateID && r.templateVersion == cfg.launchTemplateVersion &&
+  r.defaultType == (if cfg.lifecycle == "" then Gen.lifecycleOnDemand else cfg.lifecycle) &&
+  r.onDemandOptions == (r.defaultType == Gen.lifecycleOnDemand) &&
+  C17.overridesOk cfg.instanceTypeOverrides r.overrides &&
+  r.tagged == cfg.resourceTagging
+
+/-- One journal entry of a fleet-mode scale-up. -/
+def C17.fleetEntryOk (cfg : AwsCfg) (gid : String) (d : Int) (e : Entry) : Bool :=
+  match e.call with
+  | .describeAsgs names => names == [gid]
+  | .createFleet r => C17.fleetReqOk cfg d r
+  | .describeStatus _ | .terminateInstances _ => true
+  | .attach g _ => g == gid
+  | _ => false
+
+def isFleetReq (e : Entry) : Bool := match e.call with | .createFleet _ => true | _ => false
+
+/-- **C17 (request)**: what `IncreaseSize(d)` on the cached group may do. -/
+def C17.increaseHolds (cfg : AwsCfg) (g : PGroup) (d : Int) (j : Journal) (out : IncErr) : Bool :=
+  if d ≤ 0 || g.asg.desired + d > g.asg.max then j.isEmpty && out == .rejected
+  else if cfg.launchTemplateID == "" then
+    (j.map (·.call) == [Call.setDesired g.id (g.asg.desired + d)]) &&
+    ((out == .none) == j.all (·.ok)) && (out == .none || out == .failed)
+  else
+    -- fleet mode: never a SetDesiredCapacity; one describe first; at most one fleet request, for exactly d, all-or-nothing
+    ((j.head?.map (·.call)) == some (Call.describeAsgs [g.id])) &&
+    j.all (C17.fleetEntryOk cfg g.id d) &&
+    decide ((j.filter isFleetReq).length ≤ 1) &&
+    out != .rejected
+
+end Spec
+end Esc
+
+namespace Esc
+namespace Spec
+
+/-! ### C19 — controller level (per group scan) -/
+
+def isRemovalEntry (e : Entry) : Bool := isTerminateEntry e || isDeleteEntry e
+
+/-- First batch of a removal journal: the leading terminates and the deletes that follow them. -/
+def firstBatch (r : Journal) : Journal × Journal :=
+  let terms := r.takeWhile isTerminateEntry
+  let rest := r.dropWhile isTerminateEntry
+  (terms ++ rest.takeWhile isDeleteEntry, rest.dropWhile isDeleteEntry)
+
+def okDecs (j : Journal) : Nat := j.countP isOkDecTerminate
+
+/-- Did this batch stop because the next candidate is not a member of the cloud group? -/
+def stoppedAtNonMember (g : PGroup) (cands : List Node) (batch : Journal) : Bool :=
+  let terms := batch.takeWhile isTerminateEntry
+  !terms.isEmpty &&      -- evidence that the batch ran at all (a stop at position 0 leaves no trace in the journal)
+  terms.all (·.ok) && (batch.dropWhile isTerminateEntry).isEmpty &&
+  (match cands[terms.length]? with | some x => !belongs g x | none => false) &&
+  decide (g.asg.desired > g.asg.min) && decide (g.asg.desired - cands.length ≥ g.asg.min)
+
+/-- Failures of the C19 controller-level rules for one group scan; empty = holds.
+    `fatalHere`: the run ended with the not-in-group error while processing this group. -/
+def C19.scanBad (c : Ctx) (j : Journal) (fatalHere : Bool) : List String :=
+  let r := j.filter isRemovalEntry
+  let fc := forceCands c.dry c.view.pods (nodesOf c.dry c.st .force c.view.nodes)
+  let rc := reaperCands c.dry c.cfg c.view.pods c.nowMock (nodesOf c.dry c.st .tainted c.view.nodes)
+  let try2 (b1 b2 : Journal) : Bool :=
+    let g2 : PGroup := { c.g with asg := { c.g.asg with desired := c.g.asg.desired - okDecs b1 } }
+    C19.batchHolds c.g fc b1 && C19.batchHolds g2 rc b2
+  let (p1, p2) := firstBatch r
+  let decr := r.all (fun e => match e.call with | .terminateInAsg _ d => d | _ => true)
+  let (b1, b2) := if try2 [] r then (([] : Journal), r) else (p1, p2)
+  let g2 : PGroup := { c.g with asg := { c.g.asg with desired := c.g.asg.desired - okDecs b1 } }
+  (if try2 b1 b2 then [] else ["order"]) ++
+  (if decr then [] else ["decrement"]) ++
+  (if stoppedAtNonMember c.g fc b1 && !fatalHere then ["notingroup-force"] else []) ++
+  (if stoppedAtNonMember g2 rc b2 && !fatalHere then ["notingroup-reap"] else [])
+
+end Spec
+end Esc
